@@ -41,8 +41,11 @@ fn main() {
             let out = arg(&args, "--out").unwrap_or("/dev/stdout").to_string();
             let replays = arg(&args, "--replays").unwrap_or("/verif/replays").to_string();
             let shard = arg(&args, "--shard").unwrap_or("0").to_string();
+            let shards: usize = arg(&args, "--shards").and_then(|s| s.parse().ok()).unwrap_or(1);
             if shard != "0" {
-                seed = seed.wrapping_mul(1_000_003).wrapping_add(shard.parse::<u64>().unwrap_or(0));
+                let i: usize = shard.parse().unwrap_or(1);
+                wl::set_shard(i.saturating_sub(1), shards);
+                seed = seed.wrapping_mul(1_000_003);
             }
             alloc::configure(prop, &replays);
             let t0 = Instant::now();
